@@ -1,0 +1,133 @@
+//! `connection/cid_state.rs::CidState` (local CIDs: issue, lifetime, retirement by the peer).
+//!
+//! Requests (first token `cidstate` already removed); times are nanoseconds after a per-state base Instant:
+//!   new <cid_len> <lifetime_ns|none> <now> <issued>     CidState::new          (issued <= 64)
+//!   retire <seq> <limit>                                on_cid_retirement      (peer-chosen seq: any u64)
+//!   timeout                                             on_cid_timeout
+//!   newcids <now> <seq,seq,…|->                         new_cids with IssuedCid{sequence}  (<= 64 ids, sequence <= 100000)
+//!   next_timeout | rpt                                  next_timeout, retire_prior_to
+//! State suffix: `issued=<n> prev=<n> retire=<n> active=[sorted] ts=[seq@ns,…]`
+use super::{num, Comp, BAD};
+use crate::connection::cid_state::CidState;
+use crate::shared::IssuedCid;
+use crate::{ConnectionId, Duration, Instant, ResetToken, RESET_TOKEN_SIZE};
+
+pub(super) struct CidStateC {
+    base: Instant,
+    st: CidState,
+}
+
+const TMAX: u64 = 1 << 62;
+
+impl CidStateC {
+    pub(super) fn new() -> Self {
+        let base = Instant::now();
+        Self {
+            base,
+            st: CidState::new(8, None, base, 1),
+        }
+    }
+
+    fn state(&self) -> String {
+        let (ts, issued, active, prev, retire) = self.st.verif_state();
+        let a: Vec<String> = active.iter().map(|x| x.to_string()).collect();
+        let t: Vec<String> = ts
+            .iter()
+            .map(|(s, t)| format!("{s}@{}", t.duration_since(self.base).as_nanos()))
+            .collect();
+        format!(
+            "issued={issued} prev={prev} retire={retire} active=[{}] ts=[{}]",
+            a.join(","),
+            t.join(",")
+        )
+    }
+}
+
+impl Comp for CidStateC {
+    fn exec(&mut self, w: &[&str]) -> String {
+        match w {
+            ["new", cid_len, lifetime, now, issued] => {
+                let (Some(cid_len), Some(now), Some(issued)) = (num(cid_len), num(now), num(issued))
+                else {
+                    return BAD.into();
+                };
+                let lifetime = match *lifetime {
+                    "none" => None,
+                    x => match num(x) {
+                        Some(l) if l < TMAX => Some(Duration::from_nanos(l)),
+                        _ => return BAD.into(),
+                    },
+                };
+                if cid_len > 20 || now >= TMAX || issued > 64 {
+                    return BAD.into();
+                }
+                self.st = CidState::new(
+                    cid_len as usize,
+                    lifetime,
+                    self.base + Duration::from_nanos(now),
+                    issued,
+                );
+                format!("ok {}", self.state())
+            }
+            ["retire", seq, limit] => {
+                let (Some(seq), Some(limit)) = (num(seq), num(limit)) else {
+                    return BAD.into();
+                };
+                match self.st.on_cid_retirement(seq, limit) {
+                    Ok(b) => format!("ok {b} {}", self.state()),
+                    Err(e) => {
+                        let code = if e.code == crate::TransportErrorCode::PROTOCOL_VIOLATION {
+                            "PROTOCOL_VIOLATION".to_string()
+                        } else {
+                            format!("code{}", u64::from(e.code))
+                        };
+                        let site = if e.reason.contains("aren't in use") {
+                            "not-in-use"
+                        } else if e.reason.contains("unissued") {
+                            "unissued"
+                        } else {
+                            "other"
+                        };
+                        format!("err {code} {site} {}", self.state())
+                    }
+                }
+            }
+            ["timeout"] => {
+                let b = self.st.on_cid_timeout();
+                format!("{b} {}", self.state())
+            }
+            ["newcids", now, seqs] => {
+                let Some(now) = num(now) else { return BAD.into() };
+                if now >= TMAX {
+                    return BAD.into();
+                }
+                let mut ids = Vec::new();
+                if *seqs != "-" {
+                    for s in seqs.split(',') {
+                        let Some(sequence) = num(s) else { return BAD.into() };
+                        if sequence > 100_000 {
+                            // keeps the `(prev..retire).any(..)` scans of on_cid_timeout short
+                            return BAD.into();
+                        }
+                        ids.push(IssuedCid {
+                            sequence,
+                            id: ConnectionId::new(&[1, 2, 3, 4]),
+                            reset_token: ResetToken::from([0u8; RESET_TOKEN_SIZE]),
+                        });
+                    }
+                }
+                if ids.len() > 64 {
+                    return BAD.into();
+                }
+                self.st.new_cids(&ids, self.base + Duration::from_nanos(now));
+                format!("ok {}", self.state())
+            }
+            ["next_timeout"] => match self.st.next_timeout() {
+                None => "none".into(),
+                Some(t) => format!("ok {}", t.duration_since(self.base).as_nanos()),
+            },
+            ["rpt"] => format!("ok {}", self.st.retire_prior_to()),
+            _ => BAD.into(),
+        }
+    }
+}
